@@ -7,6 +7,8 @@ mod known;
 mod model;
 mod ops;
 mod pool;
+mod sched;
+mod schedx;
 mod worker;
 
 fn main() {
